@@ -49,7 +49,7 @@ def n_cases(tier):
 def slow_sinks(prog, rng):
     for s in prog['nodes']:
         if s['op'] == 'sink' and rng.random() < 0.8:
-            s['kind'] = rng.choice(['coro', 'future'])
+            s['kind'] = rng.choice(['coro', 'future', 'tornado'])
             if s['svc'] == [0]:
                 s['svc'] = [rng.choice([0.25, 0.5, 1.0])]
 
@@ -77,7 +77,7 @@ def gen_case(rng, fam):
             nodes.append({'id': 'n1', 'op': 'buffer', 'ups': ['n0'], 'n': n})
         elif kind == 'map_async':
             nodes.append({'id': 'n1', 'op': 'map_async', 'ups': ['n0'], 'f': 'ident', 'parallelism': n,
-                          'svc': g._svc(), 'ret': rng.choice(['coro', 'future'])})
+                          'svc': g._svc(), 'ret': rng.choice(['coro', 'future', 'tornado'])})
         else:
             nodes.append({'id': 'n1', 'op': 'source', 'ups': []})
             if rng.random() < 0.1:
@@ -91,7 +91,7 @@ def gen_case(rng, fam):
         if rng.random() < 0.4:
             nodes.append({'id': 'm', 'op': 'map', 'ups': [last], 'f': 'ident'})
             last = 'm'
-        nodes.append({'id': 'sk', 'op': 'sink', 'ups': [last], 'kind': rng.choice(['coro', 'future']),
+        nodes.append({'id': 'sk', 'op': 'sink', 'ups': [last], 'kind': rng.choice(['coro', 'future', 'tornado']),
                       'svc': [x or 0.25 for x in g._svc()] if rng.random() < 0.8 else [0]})
         prog = {'nodes': nodes, 'extra_edges': []}
         entries = [s['id'] for s in nodes if s['op'] == 'source']
@@ -109,12 +109,12 @@ def gen_case(rng, fam):
     nthreads = rng.choice([1, 2, 3, 4])
     chain = rng.choice([['map'], ['map', 'rate_limit'], ['rate_limit'], ['map', 'filter'], ['accumulate']])
     case = {'family': 'T', 'threads': nthreads, 'per_thread': rng.randrange(2, 6), 'chain': chain,
-            'sink_ms': rng.choice([0, 1, 3]), 'sink_kind': rng.choice(['coro', 'future', 'sync'])}
+            'sink_ms': rng.choice([0, 1, 3]), 'sink_kind': rng.choice(['coro', 'future', 'sync', 'tornado'])}
     if rng.random() < 0.3:
         # a consumer that outlasts the internal polling period of the blocking wait: the harness scales the
         # timeouts streamz passes to threading.Event.wait by 1/100 (10 s -> 0.1 s) and makes the consumer take 0.25 s
         case.update({'scaled_waits': True, 'sink_ms': 250, 'per_thread': 1, 'threads': rng.choice([1, 2]),
-                     'sink_kind': rng.choice(['coro', 'future'])})
+                     'sink_kind': rng.choice(['coro', 'future', 'tornado'])})
     return case
 
 
